@@ -808,6 +808,107 @@ def section_start_dtypes(env, ctx, model):
                                  oracle=lambda c, fail=fail: fail)
 
 
+def section_forwarding(env, ctx, model):
+    """what the inner scipy calls receive, observed exactly: `scico.solver.spopt` is replaced (for scico only) by a recorder.
+    Every scipy method x {canonical, lower, upper} spelling and a callable: `jac` = the model's routing, the pass-through
+    keywords ARE the caller's objects (identity), for a truthy and a falsy set of values (tol=0.0, options={}, bounds=[],
+    constraints=(), args=(), callback=None), the keyword set is the model's, x0 is the model's flat float64 vector."""
+    S, jnp = env.solver, env.jnp
+    real = S.spopt
+    rec = {}
+
+    class Recorder:
+        OptimizeResult = real.OptimizeResult
+        Bounds, LinearConstraint, NonlinearConstraint = real.Bounds, real.LinearConstraint, real.NonlinearConstraint
+
+        @staticmethod
+        def minimize(*a, **k):
+            rec["pos"], rec["kw"] = a, k
+            return real.OptimizeResult(x=np.array(k["x0"], dtype=float), fun=0.0, success=True, status=0, nit=0, nfev=0)
+
+        @staticmethod
+        def minimize_scalar(*a, **k):
+            rec["pos"], rec["kw"] = a, k
+            return real.OptimizeResult(x=0.0, fun=0.0, success=True, nit=0, nfev=0)
+
+    kws = model.call("call_keywords")
+    hess_f, hessp_f, cb_f = (lambda v: None), (lambda v, p: None), (lambda xk: None)
+    value_sets = {
+        "truthy": dict(args=(2.0, 0.5), hess=hess_f, hessp=hessp_f, bounds=[(0.0, 1.0)] * 3, constraints=({"type": "eq", "fun": lambda v: 0.0},), tol=1e-3, callback=cb_f, options={"maxiter": 3}),
+        "falsy": dict(args=(), hess=None, hessp=None, bounds=[], constraints=(), tol=0.0, callback=None, options={}),
+        "zeros": dict(args=(0.0,), hess=False, hessp=0, bounds=(), constraints=[], tol=0, callback=None, options=None),
+    }
+    x0s = [("arr", jnp.array([0.5, -1.0, 2.0])), ("cplx", jnp.array([0.5 + 1j, -1.0 - 2j]))]
+    S.spopt = Recorder
+    try:
+        methods = [m for m in METHODS] + ["@callable"]
+        for m in methods:
+            spellings = [m, m.lower(), m.upper()] if m != "@callable" else [custom_method]
+            for sp in spellings:
+                for vname, vals in value_sets.items():
+                    if not ctx.thorough and vname == "zeros" and sp != m:
+                        continue
+                    for xname, x0 in (x0s if (ctx.thorough or sp == m) else x0s[:1]):
+                        rec.clear()
+                        try:
+                            S.minimize(lambda z, *a: jnp.sum(jnp.abs(z) ** 2), x0, method=sp, **vals)
+                            out = "ok"
+                        except Exception as e:  # noqa: BLE001
+                            out = common.err_kind(e)
+                        want_jac = model.call("routing", method=sp) if isinstance(sp, str) else model.call("routing", callable=True)
+                        flat = np.array(b2fs(model.call("flatten", x0=container_json(env, x0))["v"]), dtype=float)
+                        problems = []
+                        if out != "ok" or "kw" not in rec:
+                            problems.append(f"call failed: {out}")
+                        else:
+                            kw = rec["kw"]
+                            if sorted(kw) != sorted(kws["minimize"]) or len(rec["pos"]) != 1 or not callable(rec["pos"][0]):
+                                problems.append(f"keywords of the scipy call: {sorted(kw)} (+{len(rec['pos'])} positional)")
+                            if kw.get("jac") is not want_jac:
+                                problems.append(f"jac={kw.get('jac')!r}, the routing says {want_jac}")
+                            if kw.get("method") is not sp:
+                                problems.append("method is not the caller's object")
+                            for k, v in vals.items():
+                                if kw.get(k, "<absent>") is not v:
+                                    problems.append(f"{k}: scipy received {kw.get(k, '<absent>')!r}, the caller passed {v!r}")
+                            xr = kw.get("x0")
+                            if not (isinstance(xr, np.ndarray) and xr.dtype == np.float64 and xr.ndim == 1 and np.array_equal(xr, flat)):
+                                problems.append("x0 is not the flat float64 vector of the model's layout")
+                        ctx.case({"section": "forwarding", "method": str(m), "spelling": sp if isinstance(sp, str) else "callable", "values": vname, "x0": xname},
+                                 ("forwarding", str(m), sp if isinstance(sp, str) else "callable", vname, xname))
+                        ctx.count(f"forwarding:jac={want_jac}")
+                        if problems:
+                            fail = {"call": f"solver.minimize(f, x0[{xname}], method={(sp if isinstance(sp, str) else 'callable')!r}, **{vname} values)", "problems": problems}
+                            ctx.disagree("wrap.forwarding", {"section": "forwarding", "method": str(m), "spelling": sp if isinstance(sp, str) else "callable", "values": vname}, problems, "forwarded unchanged",
+                                         oracle=lambda c, fail=fail: fail)
+        # minimize_scalar
+        for vname, vals in {"truthy": dict(bracket=(0.0, 1.0), bounds=(0.0, 2.0), args=(0.5,), method="bounded", tol=1e-3, options={"maxiter": 5}),
+                            "falsy": dict(bracket=None, bounds=None, args=(), method=None, tol=0.0, options={}),
+                            "zeros": dict(bracket=(), bounds=[], args=(0.0,), method="", tol=0, options=None)}.items():
+            rec.clear()
+            try:
+                S.minimize_scalar(lambda x: jnp.asarray(x * x), **vals)
+                out = "ok"
+            except Exception as e:  # noqa: BLE001
+                out = common.err_kind(e)
+            problems = []
+            if out != "ok" or "kw" not in rec:
+                problems.append(f"call failed: {out}")
+            else:
+                kw = rec["kw"]
+                if sorted(kw) != sorted(kws["minimize_scalar"]) or rec["pos"]:
+                    problems.append(f"keywords of the scipy call: {sorted(kw)} (+{len(rec['pos'])} positional)")
+                for k, v in vals.items():
+                    if kw.get(k, "<absent>") is not v:
+                        problems.append(f"{k}: scipy received {kw.get(k, '<absent>')!r}, the caller passed {v!r}")
+            ctx.case({"section": "forwarding", "fn": "minimize_scalar", "values": vname}, ("forwarding-scalar", vname))
+            if problems:
+                fail = {"call": f"solver.minimize_scalar(f, **{vname} values)", "problems": problems}
+                ctx.disagree("wrap.forwarding", {"section": "forwarding", "fn": "minimize_scalar", "values": vname}, problems, "forwarded unchanged", oracle=lambda c, fail=fail: fail)
+    finally:
+        S.spopt = real
+
+
 def section_jit(env, ctx, model):
     """`minimize` is written with `jax.pure_callback` so that it can be traced: under `jax.jit` (and `vmap` over starts)
     the returned container is the eager one (container kind, shape, dtype, values)"""
@@ -944,7 +1045,7 @@ def correspond(ctx, model):
 
     env = Env()
     timing = {}
-    for sec in (run_corpus, section_helpers, section_helpers_boundary, section_start_dtypes, section_scalar, section_jit, section_sequence, section_minimize):
+    for sec in (run_corpus, section_helpers, section_helpers_boundary, section_start_dtypes, section_forwarding, section_scalar, section_jit, section_sequence, section_minimize):
         t0 = time.time()
         try:
             sec(env, ctx, model)
@@ -994,6 +1095,33 @@ def search(ctx, model, why):
     sub.known = {}
     found = []
     sub.disagree = lambda op, case, impl, mdl, oracle=None, known_id=None, note="": found.append(oracle(case) if oracle else {"case": case})
+    if why is not None and "WrapSource" in str(why.get("module", "")):
+        # targeted panel: the sections that exercise the functions whose normalised body differs from the pinned one
+        import block_translate
+
+        rows = block_translate.changed_rows("wrap")
+        ctx.extra["changed_source_rows"] = rows
+        names = {r.split(":", 1)[1] for r in rows}
+        panel = []
+        if names & {"_ravel", "_unravel", "_split_real_imag", "_join_real_imag"}:
+            panel += [section_helpers, section_helpers_boundary]
+        if "minimize_scalar" in names:
+            panel += [section_scalar]
+        if names & {"minimize", "_wrap_func", "_wrap_func_and_grad", "_ravel", "_unravel", "_split_real_imag", "_join_real_imag"}:
+            panel += [section_start_dtypes, section_forwarding, section_minimize, section_sequence]
+        sub.is_known = lambda fid: False
+        sub.disagree = lambda op, case, impl, mdl, oracle=None, known_id=None, note="": found.append(oracle(case) if oracle else None)
+        for sec in panel:
+            try:
+                sec(env, sub, model)
+            except (common.Infra, ModelErr):
+                raise
+            except Exception as e:  # noqa: BLE001
+                found.append({"section": sec.__name__, "raised": repr(e)[:300]})
+            hits = [f for f in found if f is not None]
+            if hits:
+                return dict(hits[0], changed_functions=rows)
+        return None
     scen_names = ["default"] + list(SCENARIO_METHODS)
     for it in range(12 if why is None else 40):
         scen = scen_names[int(rng.integers(0, len(scen_names)))]
